@@ -30,6 +30,7 @@ CONSTANTS Streams,      \* stream identifiers (naturals; the client opens them i
           MCKinds,      \* model checking: request classes the client may use
           MCWrites,     \* model checking: handler writes per stream
           MCPauses,     \* model checking: how often the peer may stop reading / exhaust a window
+          MCGoAway,     \* model checking: may a graceful shutdown begin (BOOLEAN)
           MCPanics      \* model checking: subset of BOOLEAN: may handlers return normally (FALSE) / panic (TRUE)
 
 (* RFC 9113 section 7 error codes *)
@@ -51,6 +52,9 @@ VARIABLES
     paused,    \* the peer is not reading (no server frame can be observed)
     setPaused, \* SETTINGS frames received since the peer stopped reading
     dead,      \* GOAWAY with an error was sent / the connection is closed
+    gs,        \* graceful shutdown: [cause: a reason for it exists (GOAWAY from the client, Server shutdown,
+               \*   "Connection: close" response), ingo: the server has decided to send GOAWAY (mechanism only),
+               \*   shut: GOAWAY(NO_ERROR) was sent, last: the last-stream-id it carried]
     viol,      \* model checking only: names of guards that did not hold
     \* ---- mechanism layer (model checking / generation only)
     sst,       \* server stream state: "idle" | "open" | "hcr" | "hcl" | "closed"
@@ -63,7 +67,7 @@ VARIABLES
     fcb,       \* the peer's flow-control window is exhausted: DATA cannot be written
     budget     \* remaining pause / window-exhaustion toggles
 
-obsVars  == <<adv, cs, kind, recvRST, sentES, sentRST, hst, rejOwed, pings, setOwed, paused, setPaused, dead, viol>>
+obsVars  == <<adv, gs, cs, kind, recvRST, sentES, sentRST, hst, rejOwed, pings, setOwed, paused, setPaused, dead, viol>>
 mechVars == <<sst, resetQ, mh, unst, wq, nAck, hw, fcb, budget>>
 vars     == <<obsVars, mechVars>>
 
@@ -94,6 +98,7 @@ ObsInit(a) ==
     /\ sentRST = [s \in Streams |-> FALSE] /\ hst = [s \in Streams |-> "none"]
     /\ rejOwed = {} /\ pings = <<>> /\ setOwed = 0 /\ paused = FALSE /\ setPaused = 0
     /\ dead = FALSE /\ viol = {}
+    /\ gs = [cause |-> FALSE, ingo |-> FALSE, shut |-> FALSE, last |-> 0]
 
 (* Client HEADERS opening stream s.  k is the class of the request as the driver built it:  *)
 (*   ok / head      well-formed GET/POST / HEAD request                                      *)
@@ -102,51 +107,54 @@ ObsInit(a) ==
 (*   malS           malformed request line (missing/invalid :method, :path, :scheme, ...)     *)
 (* A stream opened while adv streams are open is beyond the limit ("over") and must be       *)
 (* refused whatever else is wrong with it; malF is rejected before streams are counted.      *)
+(* After GOAWAY(NO_ERROR, last) a stream above last is "ignored" (RFC 9113 6.8): the server   *)
+(* said it will not process it; nothing is owed for it and it never reaches a handler.        *)
 G_CHdr(s, es, k) == cs[s] = "idle" /\ \A t \in Streams : t >= s => cs[t] = "idle"
-KindOf(k) == IF k = "malF" THEN k
-             ELSE IF Cardinality(CountedSet) >= adv THEN "over" ELSE k
+KindOf(s, k) == IF k = "malF" THEN k
+                ELSE IF gs.shut /\ s > gs.last THEN "ignored"
+                ELSE IF Cardinality(CountedSet) >= adv THEN "over" ELSE k
 U_CHdr(s, es, k) ==
-    LET kk == KindOf(k) IN
+    LET kk == KindOf(s, k) IN
     /\ cs' = [cs EXCEPT ![s] = IF es THEN "hcr" ELSE "open"]
     /\ kind' = [kind EXCEPT ![s] = kk]
     /\ hst' = [hst EXCEPT ![s] = IF kk \in Accepted THEN "unstarted" ELSE "none"]
-    /\ rejOwed' = IF kk \in Accepted THEN rejOwed ELSE rejOwed \cup {s}
-    /\ UNCHANGED <<adv, recvRST, sentES, sentRST, pings, setOwed, paused, setPaused, dead>>
+    /\ rejOwed' = IF kk \in Accepted \cup {"ignored"} THEN rejOwed ELSE rejOwed \cup {s}
+    /\ UNCHANGED <<adv, gs, recvRST, sentES, sentRST, pings, setOwed, paused, setPaused, dead>>
 
 G_CData(s, es) == cs[s] = "open"
 U_CData(s, es) ==
     /\ cs' = [cs EXCEPT ![s] = IF es THEN "hcr" ELSE @]
-    /\ UNCHANGED <<adv, kind, recvRST, sentES, sentRST, hst, rejOwed, pings, setOwed, paused, setPaused, dead>>
+    /\ UNCHANGED <<adv, gs, kind, recvRST, sentES, sentRST, hst, rejOwed, pings, setOwed, paused, setPaused, dead>>
 
 G_CRst(s) == cs[s] # "idle"
 U_CRst(s) ==
     /\ recvRST' = [recvRST EXCEPT ![s] = TRUE]
-    /\ UNCHANGED <<adv, cs, kind, sentES, sentRST, hst, rejOwed, pings, setOwed, paused, setPaused, dead>>
+    /\ UNCHANGED <<adv, gs, cs, kind, sentES, sentRST, hst, rejOwed, pings, setOwed, paused, setPaused, dead>>
 
 U_CPing(d) ==
     /\ pings' = Append(pings, d)
-    /\ UNCHANGED <<adv, cs, kind, recvRST, sentES, sentRST, hst, rejOwed, setOwed, paused, setPaused, dead>>
+    /\ UNCHANGED <<adv, gs, cs, kind, recvRST, sentES, sentRST, hst, rejOwed, setOwed, paused, setPaused, dead>>
 
 U_CSettings ==
     /\ setOwed' = setOwed + 1
     /\ setPaused' = IF paused THEN setPaused + 1 ELSE setPaused
-    /\ UNCHANGED <<adv, cs, kind, recvRST, sentES, sentRST, hst, rejOwed, pings, paused, dead>>
+    /\ UNCHANGED <<adv, gs, cs, kind, recvRST, sentES, sentRST, hst, rejOwed, pings, paused, dead>>
 
 U_Pause(p) ==
     /\ paused' = p /\ setPaused' = IF p THEN 0 ELSE setPaused
-    /\ UNCHANGED <<adv, cs, kind, recvRST, sentES, sentRST, hst, rejOwed, pings, setOwed, dead>>
+    /\ UNCHANGED <<adv, gs, cs, kind, recvRST, sentES, sentRST, hst, rejOwed, pings, setOwed, dead>>
 
 (* A request handler (the application's) starts for s.  C15: only for accepted, well-formed  *)
 (* requests, and never more than adv at once.                                                 *)
 G_HStart(s) == kind[s] \in {"ok", "head"} /\ hst[s] = "unstarted" /\ Cardinality(Running) < adv
 U_HStart(s) ==
     /\ hst' = [hst EXCEPT ![s] = "running"]
-    /\ UNCHANGED <<adv, cs, kind, recvRST, sentES, sentRST, rejOwed, pings, setOwed, paused, setPaused, dead>>
+    /\ UNCHANGED <<adv, gs, cs, kind, recvRST, sentES, sentRST, rejOwed, pings, setOwed, paused, setPaused, dead>>
 
 G_HEnd(s) == hst[s] = "running"
 U_HEnd(s) ==
     /\ hst' = [hst EXCEPT ![s] = "done"]
-    /\ UNCHANGED <<adv, cs, kind, recvRST, sentES, sentRST, rejOwed, pings, setOwed, paused, setPaused, dead>>
+    /\ UNCHANGED <<adv, gs, cs, kind, recvRST, sentES, sentRST, rejOwed, pings, setOwed, paused, setPaused, dead>>
 
 (* The server writes HEADERS (status > 0: response head; 0: trailers) or DATA on s.  C15:     *)
 (* never after END_STREAM / RST_STREAM was sent or RST_STREAM received for s; only on streams  *)
@@ -161,7 +169,7 @@ G_SResp(s, es, status) ==
 U_SResp(s, es, status) ==
     /\ sentES' = [sentES EXCEPT ![s] = @ \/ es]
     /\ hst' = [hst EXCEPT ![s] = IF kind[s] = "connspec" THEN "done" ELSE @]
-    /\ UNCHANGED <<adv, cs, kind, recvRST, sentRST, rejOwed, pings, setOwed, paused, setPaused, dead>>
+    /\ UNCHANGED <<adv, gs, cs, kind, recvRST, sentRST, rejOwed, pings, setOwed, paused, setPaused, dead>>
 
 (* The server writes RST_STREAM(s, code).  A rejection that is owed must use PROTOCOL_ERROR     *)
 (* (or REFUSED_STREAM beyond the limit); an accepted request is never refused.                  *)
@@ -173,17 +181,37 @@ G_SRst(s, code) ==
 U_SRst(s, code) ==
     /\ sentRST' = [sentRST EXCEPT ![s] = TRUE]
     /\ rejOwed' = rejOwed \ {s}
-    /\ UNCHANGED <<adv, cs, kind, recvRST, sentES, hst, pings, setOwed, paused, setPaused, dead>>
+    /\ UNCHANGED <<adv, gs, cs, kind, recvRST, sentES, hst, pings, setOwed, paused, setPaused, dead>>
 
 G_SPingAck(d) == InSeq(pings, d)
 U_SPingAck(d) ==
     /\ pings' = IF InSeq(pings, d) THEN RemoveFirst(pings, d) ELSE pings
-    /\ UNCHANGED <<adv, cs, kind, recvRST, sentES, sentRST, hst, rejOwed, setOwed, paused, setPaused, dead>>
+    /\ UNCHANGED <<adv, gs, cs, kind, recvRST, sentES, sentRST, hst, rejOwed, setOwed, paused, setPaused, dead>>
 
 G_SSetAck == setOwed > 0
 U_SSetAck ==
     /\ setOwed' = setOwed - 1
-    /\ UNCHANGED <<adv, cs, kind, recvRST, sentES, sentRST, hst, rejOwed, pings, paused, setPaused, dead>>
+    /\ UNCHANGED <<adv, gs, cs, kind, recvRST, sentES, sentRST, hst, rejOwed, pings, paused, setPaused, dead>>
+
+(* Graceful shutdown.  A cause: the client sent GOAWAY, the Server is shutting down, or a handler  *)
+(* answered with "Connection: close".  The server may then send GOAWAY(NO_ERROR, last); last must  *)
+(* cover every stream whose request was handed to a handler (a later GOAWAY may only lower it).     *)
+(* Streams above last are ignored from then on - also those the client opened before it saw the    *)
+(* GOAWAY.  Everything else about C15 is unchanged during the shutdown: streams <= last are        *)
+(* served, reset, refused and rejected as before, PING and SETTINGS are acknowledged.              *)
+U_Cause ==
+    /\ gs' = [gs EXCEPT !.cause = TRUE]
+    /\ UNCHANGED <<adv, cs, kind, recvRST, sentES, sentRST, hst, rejOwed, pings, setOwed, paused, setPaused, dead>>
+Above(last) == {s \in Streams : s > last /\ kind[s] \notin {"none", "malF"}}
+G_SGoAwayG(last) ==
+    /\ gs.cause /\ (gs.shut => last <= gs.last)
+    /\ \A s \in Above(last) : hst[s] \notin {"running", "done"}
+U_SGoAwayG(last) ==
+    /\ gs' = [gs EXCEPT !.shut = TRUE, !.last = last]
+    /\ kind' = [s \in Streams |-> IF s \in Above(last) THEN "ignored" ELSE kind[s]]
+    /\ hst' = [s \in Streams |-> IF s \in Above(last) THEN "none" ELSE hst[s]]
+    /\ rejOwed' = rejOwed \ Above(last)
+    /\ UNCHANGED <<adv, cs, recvRST, sentES, sentRST, pings, setOwed, paused, setPaused, dead>>
 
 (* The connection ends: GOAWAY with an error code, or close.  Inside C15's quantifier the       *)
 (* client gives no cause for that except a pile-up of requests whose handlers could not start   *)
@@ -191,7 +219,7 @@ U_SSetAck ==
 G_SGoAway(code) == code = Calm /\ \E s \in Streams : hst[s] = "unstarted" /\ kind[s] \in Accepted
 U_Dead ==
     /\ dead' = TRUE /\ pings' = <<>> /\ setOwed' = 0 /\ rejOwed' = {}
-    /\ UNCHANGED <<adv, cs, kind, recvRST, sentES, sentRST, hst, paused, setPaused>>
+    /\ UNCHANGED <<adv, gs, cs, kind, recvRST, sentES, sentRST, hst, paused, setPaused>>
 
 (* Quiescent point: every goroutine of the server is blocked.  cur / ctl / live are the serve   *)
 (* (mq = maxQueuedControlFrames, so = SETTINGS acks owed)                                        *)
@@ -218,6 +246,10 @@ CurH     == Cardinality({s \in Streams : mh[s] \in {"running", "fin"}})   \* cur
 IsCtl(f) == f.t \in {"RST", "PA"}
 NCtl     == Cardinality({i \in 1..Len(wq) : IsCtl(wq[i])})          \* queuedControlFrames
 Frame(t, s, es, c) == [t |-> t, s |-> s, es |-> es, c |-> c]
+MaxId    == LET S == {s \in Streams : sst[s] # "idle"} IN                 \* maxClientStreamID
+            IF S = {} THEN 0 ELSE CHOOSE m \in S : \A t \in S : t <= m
+(* processFrame after a graceful GOAWAY was decided: frames on streams above maxClientStreamID are dropped *)
+Discarded(s) == gs.ingo /\ s > MaxId
 Check(g, name) == viol' = IF g THEN viol ELSE viol \cup {name}
 
 MechInit ==
@@ -246,6 +278,8 @@ M_ClientHeaders(s, es, k) ==
     /\ IF k = "malF"
        THEN /\ wq' = Append(wq, Frame("RST", s, FALSE, Protocol))          \* stream error from the frame reader
             /\ UNCHANGED <<sst, resetQ, mh, unst>>
+       ELSE IF Discarded(s)
+       THEN UNCHANGED <<sst, resetQ, mh, unst, wq>>
        ELSE IF CurStr + 1 > adv
        THEN /\ \E c \in {Protocol, Refused} : wq' = Append(wq, Frame("RST", s, FALSE, c))
             /\ sst' = [sst EXCEPT ![s] = "closed"]                          \* maxClientStreamID has moved past s
@@ -307,7 +341,9 @@ M_HandlerDone(s) ==
 
 M_ClientData(s, es) ==
     /\ G_CData(s, es) /\ kind[s] # "malF" /\ U_CData(s, es) /\ UNCHANGED viol
-    /\ IF sst[s] = "open" /\ ~resetQ[s]
+    /\ IF Discarded(s)
+       THEN UNCHANGED <<sst, wq, resetQ>>
+       ELSE IF sst[s] = "open" /\ ~resetQ[s]
        THEN /\ sst' = [sst EXCEPT ![s] = IF es THEN "hcr" ELSE @]
             /\ UNCHANGED <<wq, resetQ>>
        ELSE IF Live(s) /\ resetQ[s]
@@ -319,10 +355,19 @@ M_ClientData(s, es) ==
 
 M_ClientRST(s) ==
     /\ G_CRst(s) /\ kind[s] # "malF" /\ ~recvRST[s] /\ U_CRst(s) /\ UNCHANGED viol
-    /\ IF Live(s)
+    /\ IF Live(s) /\ ~Discarded(s)
        THEN sst' = [sst EXCEPT ![s] = "closed"] /\ wq' = Drop(wq, s)
        ELSE UNCHANGED <<sst, wq>>
     /\ UNCHANGED <<resetQ, mh, unst, nAck, hw, fcb, budget>>
+
+(* a graceful shutdown begins (client GOAWAY / Server shutdown / "Connection: close"): GOAWAY goes out *)
+(* before anything else that is queued                                                                *)
+M_Graceful ==
+    /\ MCGoAway /\ ~gs.ingo
+    /\ gs' = [gs EXCEPT !.cause = TRUE, !.ingo = TRUE]
+    /\ wq' = <<Frame("GA", 0, FALSE, 0)>> \o wq
+    /\ UNCHANGED <<adv, cs, kind, recvRST, sentES, sentRST, hst, rejOwed, pings, setOwed, paused, setPaused, dead, viol>>
+    /\ UNCHANGED <<sst, resetQ, mh, unst, nAck, hw, fcb, budget>>
 
 M_ClientPing(d) ==
     /\ U_CPing(d) /\ UNCHANGED viol
@@ -355,7 +400,10 @@ Without(i) == SubSeq(wq, 1, i - 1) \o SubSeq(wq, i + 1, Len(wq))
 
 Sent(i) ==
     LET f == wq[i]  rest == Without(i) IN
-    CASE f.t = "PA" ->
+    CASE f.t = "GA" ->
+           /\ U_SGoAwayG(MaxId) /\ Check(G_SGoAwayG(MaxId), "GoAway")
+           /\ wq' = rest /\ UNCHANGED <<sst, resetQ>>
+      [] f.t = "PA" ->
            /\ U_SPingAck(f.c) /\ Check(G_SPingAck(f.c), "PingAck")
            /\ wq' = rest /\ UNCHANGED <<sst, resetQ>>
       [] f.t = "RST" ->
@@ -380,7 +428,9 @@ Sent(i) ==
 
 M_Pop ==
     /\ ~paused
-    /\ IF nAck > 0
+    /\ IF \E i \in 1..Len(wq) : wq[i].t = "GA"
+       THEN Sent(CHOOSE i \in 1..Len(wq) : wq[i].t = "GA") /\ UNCHANGED nAck
+       ELSE IF nAck > 0
        THEN /\ nAck' = nAck - 1 /\ U_SSetAck /\ Check(G_SSetAck, "SettingsAck")
             /\ UNCHANGED <<sst, resetQ, wq>>
        ELSE /\ UNCHANGED nAck
@@ -413,6 +463,7 @@ Env ==
     \/ setOwed < MCSettings /\ M_ClientSettings
     \/ \E p \in BOOLEAN : M_Pause(p)
     \/ \E b \in BOOLEAN : M_Window(b)
+    \/ M_Graceful
     \/ \E s \in Streams : M_HandlerWrite(s)
     \/ \E s \in Streams, p \in MCPanics : M_HandlerReturn(s, p)
 
@@ -430,5 +481,5 @@ StreamLimit   == CurStr <= adv
 QuiescentOK   == (Quiescent /\ ~dead) =>
                    QuiesceOK(CurH, NCtl, {s \in Streams : Live(s)}, MaxQ, setOwed)
 (* the handler of a refused or malformed request never exists *)
-NeverHandled  == \A s \in Streams : kind[s] \in {"malF", "malS", "over"} => (hst[s] = "none" /\ mh[s] = "none")
+NeverHandled  == \A s \in Streams : kind[s] \in {"malF", "malS", "over", "ignored"} => (hst[s] = "none" /\ mh[s] = "none")
 =============================================================================
